@@ -1209,6 +1209,10 @@ func runC11(r *hx.Result, rng *hx.Rng, thorough bool, replay string) error {
 		cases = 500
 	}
 	c11ProbeLimitZero(r)
+	if os.Getenv("VH_C11_JOINS") == "only" { // measurement of the JOIN family alone
+		runC11Joins(r, rng.Fork(), thorough)
+		return r.Flush()
+	}
 	for i := 0; i < cases; i++ {
 		c := &c11Case{r: r, rng: rng.Fork(), noIdxRel: os.Getenv("VH_C11_IDXREL") == "0"}
 		c.run(thorough)
@@ -1216,6 +1220,13 @@ func runC11(r *hx.Result, rng *hx.Rng, thorough bool, replay string) error {
 			if err := r.Flush(); err != nil {
 				return err
 			}
+		}
+	}
+	// JOIN family (c11join.go): its own stream, forked after the single-table cases so that their streams are unchanged
+	if os.Getenv("VH_C11_JOINS") != "0" {
+		runC11Joins(r, rng.Fork(), thorough)
+		if err := r.Flush(); err != nil {
+			return err
 		}
 	}
 	must := []string{"variant.hint", "variant.twin", "variant.filesort", "variant.tx-vs-committed", "variant.restart", "variant.partition", "q.nonempty", "index.after-data", "index.before-data", "unit.multi"}
